@@ -310,9 +310,17 @@ fn check_proj(role: &str, snap: &str, node: &Value) -> Result<(), String> {
     if s["live"].as_bool().unwrap() != (node["res"] == "live") {
         return bad("result liveness");
     }
+    // while a result is outstanding the object is mutably borrowed: the round's counters cannot be observed by any
+    // call and are not compared (an implementation may clear them when the round completes or when the result is
+    // dropped); what `restored_original` depends on - the set of received originals - still is
+    let live = node["res"] == "live";
     if role == "enc" {
-        if s["oc"].as_u64().unwrap() as usize != node["added"].as_array().unwrap().len() {
+        if !live && s["oc"].as_u64().unwrap() as usize != node["added"].as_array().unwrap().len() {
             return bad("number of originals added");
+        }
+    } else if live {
+        if set_of(&s["gotO"]) != set_of(&node["gotO"]) {
+            return bad("received index sets");
         }
     } else {
         let go = set_of(&node["gotO"]);
